@@ -84,6 +84,30 @@ fn run(server: SocketAddr, n: u32, seg: &[usize], cut: usize) -> Result<Vec<Stri
     if !c.run_until(to, |c| c.streams.get(&sid).map(|s| !s.heads.is_empty() || s.ended()).unwrap_or(false)) || c.stream(sid).status(0) != 200 {
         return Err(format!("CONNECT _udp2 not answered 200 (status {})", c.stream(sid).status(0)));
     }
+    // a destination written as an IPv4-mapped IPv6 address is a destination like any other: the datagram reaches the host
+    // behind it and the reply comes back labelled with the very address the client wrote (every other scenario)
+    if n % 2 == 0 {
+        let (pm, logm) = echo_server();
+        let mut mapped = [0u8; 16]; mapped[10] = 0xff; mapped[11] = 0xff; mapped[12..].copy_from_slice(&[127, 0, 0, 1]);
+        let mut rec = vec![];
+        let payload = b"to a mapped destination";
+        rec.extend_from_slice(&((36 + 1 + payload.len()) as u32).to_be_bytes());
+        rec.extend_from_slice(&ip16([10, 0, 0, 3])); rec.extend_from_slice(&4003u16.to_be_bytes());
+        rec.extend_from_slice(&mapped); rec.extend_from_slice(&pm.to_be_bytes());
+        rec.push(0); rec.extend_from_slice(payload);
+        c.send_data(sid, &rec, false, Duration::from_secs(5))?;
+        c.run_until(Duration::from_secs(3), |c| parse_out(&c.streams[&sid].body).map(|r| !r.is_empty()).unwrap_or(false));
+        let got = parse_out(&c.stream(sid).body).unwrap_or_default();
+        let mut rev = payload.to_vec(); rev.reverse();
+        if logm.lock().unwrap().len() != 1 {
+            return Ok(vec![format!("destination [::ffff:127.0.0.1]:{} received {} datagram(s), the client sent it 1", pm, logm.lock().unwrap().len())]);
+        }
+        if got.len() != 1 || got[0].0 != (mapped, pm) || got[0].1 != (ip16([10, 0, 0, 3]), 4003) || got[0].2 != rev {
+            return Ok(vec![format!("the reply of the flow to [::ffff:127.0.0.1]:{} came back as {:?}, expected one record labelled with that address as source", pm, got.iter().map(|r| (r.0 .0, r.0 .1, r.2.len())).collect::<Vec<_>>())]);
+        }
+        // (the stream's earlier octets are not part of what follows)
+        c.streams.get_mut(&sid).unwrap().body.clear();
+    }
     // three records, two flows (records 0 and 2 share a flow); payloads of different lengths
     let lo = [127u8, 0, 0, 1];
     let flows = [(([10u8, 0, 0, 1], 4001u16), (lo, p1)), (([10u8, 0, 0, 2], 4002u16), (lo, p2))];
